@@ -168,7 +168,13 @@ def driver(case, api):
     else:
         src = render(case)
         # virtual clock: one tick per hooked step; the deadline passes after T ticks
-        out = api.run(lambda: ctx.eval(src), wall=40.0, cap=int(T) + 3_000_000, tick=1.0, deadline=T)
+        if case.get("prof", "uniform") == "cheap_then_costly":
+            # cost profile: the first 60 % of T pass in cheap steps (100 per tick), then every step costs a whole tick.
+            # An interpreter that spaces its clock reads by the rate measured so far reads the clock far too late.
+            out = api.run(lambda: ctx.eval(src), wall=40.0, cap=int(T) * 100 + 3_000_000, tick=0.01, deadline=T,
+                          sched=[(int(T * 0.6 * 100), 1.0)])
+        else:
+            out = api.run(lambda: ctx.eval(src), wall=40.0, cap=int(T) + 3_000_000, tick=1.0, deadline=T)
     late = dict(api.steps.late)
     res = {"id": case["id"], "finite": bool(case["finite"]), "o": out["o"], "steps": out["steps"], "t": case["t"],
            "lateV": late["main"] + late["cb"], "lateR": late["re"] + late["la"] + late["lb"],
